@@ -63,6 +63,7 @@ structure SState where
   mem : List T := []               -- memory as a flat array of byte terms (width 8), zero beyond its end
   storage : List (Nat × T) := []   -- plain slots of the executing account written so far: slot ↦ 256-bit term, newest first
   transient : List (Nat × T) := [] -- the same for transient storage
+  returndata : List T := []        -- output of the last message call of this frame (byte terms); empty before any call
 
 inductive StuckReason where
   | notConcrete | unsupported (op : Nat) | internal (e : PyErr)
@@ -78,6 +79,7 @@ inductive Out where
 inductive Tag where
   | normal | jumpiInvalidSym
   | memLimit     -- OutOfGasError raised by a `MAX_MEMORY_SIZE` check: the limit is a modelling parameter, not EVM behaviour
+  | stackLimit   -- the model's own: more than 1024 stack items (the code has no stack limit and would go on)
   deriving DecidableEq, Repr
 
 structure EndState where
@@ -449,6 +451,31 @@ def step (s : Simp) (o : Oracle) (cfg : Cfg) (env : Env) (code : List Nat) (st :
                   | _ => stuckOut st (.unsupported op)
               | _ => stuckOut st .notConcrete
         | _ => stuckOut st .notConcrete
+    else if op = 0x3d then
+      contOut { st with pc := st.pc + 1, stack := .bv 256 (.con (st.returndata.length % 2 ^ 256)) :: st.stack }
+    else if op = 0x3e then
+      -- RETURNDATACOPY: `loc = mloc(check_size=False)`, `offset = int_of(pop())`, `size = int_of(pop())`; the bounds check of
+      -- EIP-211 applies even to an empty range
+      match st.stack with
+      | [] => haltOut st .stackUnderflow
+      | lv :: r1 =>
+        match toBV256 s lv with
+        | .bv _ (.con loc) =>
+          match r1 with
+          | [] => haltOut st .stackUnderflow
+          | ov :: r2 =>
+            match toBV256 s ov with
+            | .bv _ (.con off) =>
+              match r2 with
+              | [] => haltOut st .stackUnderflow
+              | sv :: rest =>
+                match toBV256 s sv with
+                | .bv _ (.con size) =>
+                  if off + size > st.returndata.length then haltOut st .outOfBoundsRead
+                  else copyToMemOut cfg st rest loc size (fun i => (st.returndata[off + i]?).getD zeroByte)
+                | _ => stuckOut st .notConcrete
+            | _ => stuckOut st .notConcrete
+        | _ => stuckOut st .notConcrete
     else if op = 0x54 ∨ op = 0x5c then
       -- SLOAD / TLOAD of a plain slot of the executing account (`SolidityStorage.load`, scalar case: the slot is a
       -- literal that is not a registered hash). A symbolic slot: `int_of` raises NotConcreteError. Slots from 2^64 on
@@ -485,6 +512,12 @@ def step (s : Simp) (o : Oracle) (cfg : Cfg) (env : Env) (code : List Nat) (st :
       | _ => haltOut st .stackUnderflow
     else stuckOut st (.unsupported op)
 
+/-- `step` behind the one check the code does not have: the EVM's limit of 1024 stack items. Beyond it the model ends
+    the path with an end state tagged `stackLimit` (about which nothing is claimed) instead of following the code. -/
+def stepL (s : Simp) (o : Oracle) (cfg : Cfg) (env : Env) (code : List Nat) (st : SState) : StepOut :=
+  if st.stack.length > 1024 then haltOut st .stackOverflow .stackLimit
+  else step s o cfg env code st
+
 /-- the worklist loop. `steps` is `step_id`, counted over the whole run as in the code. -/
 def explore (s : Simp) (o : Oracle) (cfg : Cfg) (env : Env) (code : List Nat) :
     Nat → Nat → List SState → Result → Result
@@ -496,7 +529,7 @@ def explore (s : Simp) (o : Oracle) (cfg : Cfg) (env : Env) (code : List Nat) :
       -- warn(...); continue: the state is dropped
       explore s o cfg env code fuel steps' wl { acc with depthCut := true }
     else
-      let out := step s o cfg env code st
+      let out := stepL s o cfg env code st
       -- successors are pushed in order, so the last one is popped first
       explore s o cfg env code fuel steps' (out.next.reverse ++ wl)
         { acc with ends := acc.ends ++ out.ends, boundedLoops := acc.boundedLoops ++ out.bounded }
